@@ -148,6 +148,25 @@ class VanderV:
         self.x, self.ncols, self.increasing = x, ncols, increasing
 
 
+class LstsqResiduals:
+    """the residuals numpy.linalg.lstsq hands back: ONE number for an over-determined full-rank system, an EMPTY array when the system is square,
+    under-determined or rank deficient (installed docstring).  The number of volumes and the configured order decide which - both occur for valid inputs
+    (order + 1 >= number of volumes; a nearly singular ln V Vandermonde matrix at high order) - so an element cannot be taken from it unconditionally"""
+
+    def sym_subscript(self, ev, idx, n, mod):
+        from .sym import RaisedV
+        raise RaisedV("EmptySelection", f"{mod.rel}:{getattr(n, 'lineno', 0)}" if mod else "")
+
+    def sym_getattr(self, ev, name, node, mod):
+        from .sym import BoundLib
+        if name in ("sum", "size", "any", "all"):
+            return BoundLib("lstsqres." + name, self)
+        raise ev.err(f"attribute {name} of the residuals of lstsq", node, mod)
+
+    def sym_len(self):
+        return sp.Symbol("N_LSTSQ_RESIDUALS", nonnegative=True, integer=True)
+
+
 def intrinsics(reg: Registry):
     def ctor_args(cls_file, cls, a, k):
         names, required = positional_params(next(n for n in lib_class(cls_file, cls).body
@@ -241,7 +260,7 @@ def intrinsics(reg: Registry):
         if bad:
             raise AnalysisError(f"numpy.linalg.lstsq with keyword(s) {sorted(bad)} the transfer function does not model")
         it = reg.new(kind="lsq", x=A.x, y=as_sym(y), call_style="poly", opts={"ncols": A.ncols, "rcond": k.get("rcond")})
-        return Tup([CoefV(it, decreasing=not A.increasing), sp.Symbol("RES"), sp.Symbol("RANK"), sp.Symbol("SV")])
+        return Tup([CoefV(it, decreasing=not A.increasing), LstsqResiduals(), sp.Symbol("RANK"), sp.Symbol("SV")])
 
     def polyfit(ev, a, k):
         deg = k.get("deg", a[2] if len(a) > 2 else None)
@@ -314,5 +333,6 @@ def intrinsics(reg: Registry):
         "scipy.interpolate.lagrange": lagrange, "scipy.interpolate.KroghInterpolator": krogh,
         "interp.derivative_at": krogh_derivative, "numpy.polyder": polyder, "numpy.polyval": polyval,
         "numpy.poly1d": poly1d, "numpy.vander": vander, "numpy.linalg.lstsq": lstsq, "numpy.polyfit": polyfit,
+        "lstsqres.sum": lambda ev, a, k: sp.Symbol("LSTSQ_MISFIT", nonnegative=True), "lstsqres.size": lambda ev, a, k: a[0].sym_len(),
         "numpy.flip": flip, "numpy.sort": sort_, "numpy.argsort": argsort_, "numpy.ceil": ceil, "numpy.floor": floor, "math.ceil": ceil, "math.floor": floor, "builtins.int": int_,
     }
